@@ -59,6 +59,14 @@ class FieldState:
         return r
 
 
+def _akey(a):
+    if z3.is_int_value(a):
+        return ("i", a.as_long())
+    if z3.is_string_value(a):
+        return ("s", a.as_string())
+    return a.get_id()
+
+
 class State:
     def __init__(self, tag: str | None = None, _fields=None):
         self.tag = tag if tag is not None else f"h{next(_tagc)}"
@@ -75,10 +83,30 @@ class State:
 
     def copy(self) -> "State":
         s = State(self.tag, self.fields)
+        s.table = self.table
         return s
 
+    table = None      # concrete base values (run-time monitor): (field, ids of the address constants) -> literal term
+
     def read(self, name, *addr):
-        return self._fs(name).read(*addr)
+        fs = self._fs(name)
+        if self.table is not None:
+            addr = tuple(a if (z3.is_const(a) or z3.is_int_value(a) or z3.is_string_value(a)) else z3.simplify(a) for a in addr)
+            lit = self.table.get((name,) + tuple(_akey(a) for a in addr))
+            if lit is not None:
+                r = lit
+                for u in fs.updates:
+                    c, v = u(addr)
+                    r = T.ite(c, v, r)
+                return r
+        return fs.read(*addr)
+
+    def set_base(self, name, addr, lit):
+        if self.table is None:
+            self.table = {}
+        if not isinstance(addr, tuple):
+            addr = (addr,)
+        self.table[(name,) + tuple(_akey(a) for a in addr)] = lit
 
     def write(self, name, addr, val, when=None):
         """field[name](addr) := val  (if `when` holds)"""
